@@ -129,6 +129,9 @@ func gateGrid(quick bool) []string {
 			if quick && !((sb == 2 && deg == 2) || (sb == 4 && deg == 6) || (sb == 3 && deg == 4)) {
 				continue
 			}
+			if deg > 1<<sb {
+				continue // not a gate plonky2 can build: the first chunk alone would need more points than exist
+			}
 			ids = append(ids, gateID("CosetInterpolation", sb, deg))
 		}
 	}
